@@ -925,6 +925,14 @@ func (e *SpecEnv) evalCall(n *ECall) SVal {
 		}
 		v := arg(1)
 		return SVal{V: e.x.inLangRI(ri, e.x.seqView(e.st(), v.V)), T: typBool}
+	case "firstDiff":
+		// firstDiff(a, b): first index where the sequences differ (the shorter length if one is a prefix of the other)
+		a, b := arg(0), arg(1)
+		return SVal{V: e.x.firstDiff(e.x.seqView(e.st(), a.V), e.x.seqView(e.st(), b.V)), T: typInt}
+	case "indexByte", "lastIndexByte":
+		v := arg(0)
+		c := e.asInt(arg(1), tyByte)
+		return SVal{V: e.x.indexByte(e.x.seqView(e.st(), v.V), c, name == "lastIndexByte"), T: typInt}
 	case "leadRun":
 		// leadRun(seq, c1, c2, ...): number of leading bytes of seq that are one of the given characters
 		v := arg(0)
